@@ -15,7 +15,9 @@ let run file =
     if kind = "MISMATCH" then incr mism else incr pfail;
     Printf.printf "%s case=%s op=%d (%s) %s %s\n" kind !case_id !opidx (String.concat " " !cur) what detail in
   let id_of a = n_of_int (Char.code a.[0] - 64) in
-  let starts p s = String.length s >= String.length p && String.sub s 0 (String.length p) = p in
+  let starts p s =   (* p occurs in s (probe results look like "val-WRITABLEVIEW") *)
+    let lp = String.length p and ls = String.length s in
+    let rec go i = i + lp <= ls && (String.sub s i lp = p || go (i + 1)) in go 0 in
   (try while true do
     let line = input_line ic in
     match split_ws line with
